@@ -226,11 +226,4 @@ def run(rep, info, model, tier, seed):
 
 
 def replay(body):
-    sc = fam.unjson_sc(body["scenario"])
-    r = simnet.run_impl(sc)
-    tr = simnet.canon_trace(r.trace)
-    res = close_checks(sc, tr, dict(sock_closed=r.sock.closed if r.sock else None, escaped=r.escaped))
-    for it in tr:
-        print(it)
-    print("REPLAY:", ("VIOLATION reproduced: %s" % res[0]) if res else "property holds on this input (intent metadata of the scenario is not stored in replays; invariants only)")
-    return 1 if res else 0
+    return fam.replay_generic(body, {"C08:close-histories": close_checks, "C08:small-orders": close_checks, "C08:after-a-bad-close": close_checks}, show=200)
